@@ -6,6 +6,28 @@ from .loader import own_nodes, norm, short
 from .absint import MUTATORS
 
 
+def _empty_container(v):
+    if isinstance(v, (ast.List, ast.Set)) and not v.elts:
+        return True
+    if isinstance(v, ast.Dict) and not v.keys:
+        return True
+    return isinstance(v, ast.Call) and call_name(v) in ("list", "dict", "set", "OrderedDict", "defaultdict") and not v.args
+
+
+def _binds_empty_container(a, name):
+    """Assign statement `a` binds `name` to a fresh empty container (also inside a tuple unpacking / chained assignment)."""
+    if not isinstance(a, ast.Assign):
+        return False
+    for t in a.targets:
+        if is_name(t, name) and _empty_container(a.value):
+            return True
+        if isinstance(t, (ast.Tuple, ast.List)) and isinstance(a.value, (ast.Tuple, ast.List)) and len(t.elts) == len(a.value.elts):
+            for te, ve in zip(t.elts, a.value.elts):
+                if is_name(te, name) and _empty_container(ve):
+                    return True
+    return False
+
+
 # ------------------------------------------------------------------------------------------------------------
 def loop_published_containers(ctx, f):
     """Containers created outside a `for` loop but published once per iteration inside it.
@@ -41,8 +63,7 @@ def loop_published_containers(ctx, f):
                         a = d.ast
                         if d.kind == "entry":
                             continue      # a parameter: not a container created here
-                        if not (isinstance(a, ast.Assign) and isinstance(a.value, (ast.List, ast.Dict, ast.Set)) and not getattr(a.value, "elts", getattr(a.value, "keys", []))) \
-                                and not (isinstance(a, ast.Assign) and isinstance(a.value, ast.Call) and call_name(a.value) in ("list", "dict", "set") and not a.value.args):
+                        if not _binds_empty_container(a, name):
                             continue      # only fresh empty containers are accumulators
                         if id(a) not in body_nodes:
                             # is it mutated inside the loop at all?
@@ -291,3 +312,44 @@ def stale_loop_flags(ctx, f):
             # then every path head -T-> ... -> head must pass a writer
             if cfg.paths_avoiding(head, head, writers, src_labels={"T"}):
                 yield loop, v
+
+
+# ------------------------------------------------------------------------------------------------------------
+STORE_VOCAB = ["MSTORE", "MSTORE8", "SSTORE", "MLOAD", "SLOAD", "KECCAK256", "ADD", "PUSH"]
+
+
+def store_predicates(ctx, modules):
+    """Predicates over a record's "disasm" that select stores.  Yields (finfo, expr, accepted set) for every boolean expression
+    (lambda body, comprehension filter, if test) that mentions <x>["disasm"] together with a store opcode literal."""
+    from .minieval import Evaluator, Unsupported, Raised
+    for f in ctx.p.functions.values():
+        if f.module.name not in modules:
+            continue
+        cands = []
+        for n in own_nodes(f.node):
+            if isinstance(n, ast.Lambda):
+                cands.append((n.body, [a.arg for a in n.args.args]))
+            elif isinstance(n, ast.comprehension):
+                for c in n.ifs:
+                    cands.append((c, [x.id for x in ast.walk(n.target) if isinstance(x, ast.Name)]))
+        for expr, params in cands:
+            subs = [x for x in ast.walk(expr) if isinstance(x, ast.Subscript) and isinstance(x.slice, ast.Constant) and x.slice.value == "disasm"
+                    and isinstance(x.value, ast.Name) and x.value.id in params]
+            lits = {x.value for x in ast.walk(expr) if isinstance(x, ast.Constant) and isinstance(x.value, str)}
+            if not subs or not (lits & {"MSTORE", "SSTORE", "MSTORE8"}):
+                continue
+            var = subs[0].value.id
+            # only predicates that depend on nothing but the record's opcode
+            names = {x.id for x in ast.walk(expr) if isinstance(x, ast.Name)} - {var}
+            if names:
+                continue
+            fn = ast.FunctionDef(name="_p", args=ast.arguments(posonlyargs=[], args=[ast.arg(arg=var)], kwonlyargs=[], kw_defaults=[], defaults=[]),
+                                 body=[ast.Return(value=expr)], decorator_list=[])
+            acc = set()
+            try:
+                for op in STORE_VOCAB:
+                    if Evaluator(fn).call({"disasm": op, "inpt_sk": [], "outpt_sk": [], "id": op + "_0"}):
+                        acc.add(op)
+            except (Unsupported, Raised):
+                continue
+            yield f, expr, acc
